@@ -309,7 +309,8 @@ class World:
         elif act == "SetType":
             self.ent(a["s"]).entity_type = self.ent(a["e"]).entity_type
         elif act == "SetMeta":
-            self.ent(a["s"]).metadata = {"tok": int(a["v"]), "nested": {"tok": int(a["v"])}}
+            # the setter MERGES into the existing dictionary: keys of earlier assignments stay (live and stored alike)
+            self.ent(a["s"]).metadata = {"tok": int(a["v"]), "nested": {"tok": int(a["v"])}, f"k{int(a['v'])}": int(a["v"])}
         elif act in ("Move", "MoveSame"):
             self.ent(a["s"]).parent = self.ent(a["p"])
         elif act == "AddDataFails":
@@ -358,7 +359,14 @@ class World:
                 gc.collect()
         elif act == "AddToGroup":
             o = self.ent(a["o"])
-            pgr = o.add_data_to_group([self.ent(a["d"])], nm(a["n"]))
+            d_ent = self.ent(a["d"])
+            exists = any(g.name == nm(a["n"]) for g in (o.property_groups or []))
+            if not exists and self.variant % 3 == 1:
+                # the group is made first (default association), members of any association join it afterwards
+                pgr = o.find_or_create_property_group(name=nm(a["n"]))
+                pgr.add_properties([d_ent])
+            else:
+                pgr = o.add_data_to_group([d_ent], nm(a["n"]))
             self.pg2uid[int(a["p"])] = pgr.uid
         elif act == "PGWithUid":
             o = self.ent(a["o"])
@@ -753,6 +761,18 @@ class World:
             if uid == self.root_uid or uid in pg_uids:
                 continue
             live_reg.add(str(self.slot_of(uid)))
+        stored = getattr(self, "_stored_meta", None)
+        if stored is not None:
+            import json as _json
+            dirty = {str(x) for x in getattr(self, "_dirty_now", [])}
+            for s, e in conts.items():
+                if s == 0 or str(s) in dirty or str(s) not in self._stored_slots or e not in getattr(e.parent, "children", []):
+                    continue
+                live_md = e.metadata or None
+                live_md = _json.loads(_json.dumps(live_md, default=str)) if live_md else None
+                if (stored.get(str(s)) or None) != live_md:
+                    raise Divergence("metadata-live-differs-from-stored",
+                                     f"slot {s}: live metadata {live_md} but the file holds {stored.get(str(s))}", "C01,C09,C12")
         tys = {}
         for s, e in ents.items():
             if kind(s) == "D" and e.name not in SPECIAL:
@@ -808,6 +828,8 @@ class World:
 
         fnode, flink, fpg = {}, set(), {}
         tys = {}
+        self._stored_meta = {}
+        self._stored_slots = set()
         for cont in CONT:
             for uid, node in snap["nodes"].get(cont, {}).items():
                 s = sl(uid)
@@ -821,13 +843,16 @@ class World:
                         val = "vp"
                 if s != 0:
                     meta = 0
+                    self._stored_slots.add(str(s))
                     if cont != "Data" and "Metadata" in node["datasets"]:
                         import json as _json
                         try:
                             raw = node["datasets"]["Metadata"].get("value")
                             if isinstance(raw, list) and len(raw) == 1:
                                 raw = raw[0]
-                            meta = _meta_token(_json.loads(raw))
+                            parsed = _json.loads(raw)
+                            meta = _meta_token(parsed)
+                            self._stored_meta[str(s)] = parsed
                         except (TypeError, ValueError):
                             meta = "unparsable"
                     fnode[str(s)] = {"on": True, "name": node["attrs"].get("Name"), "meta": meta,
@@ -909,6 +934,16 @@ def expect_w2(st):
     pgs = {r: {"owner": g["owner"], "name": nm(g["name"]), "props": sorted(str(x) for x in g["props"])}
            for r, g in _as_map(st.get("w2pg", {})).items()}
     return {"w2": w2, "w2pg": pgs}
+
+
+def _attached(ent, root):
+    seen = 0
+    while ent is not None and seen < 50:
+        if ent is root:
+            return True
+        ent = getattr(ent, "parent", None)
+        seen += 1
+    return False
 
 
 def _under(ent, top):
@@ -1043,6 +1078,7 @@ def replay_path(item):
             # ---- live
             if post["mode"] != "closed":
                 try:
+                    w._dirty_now = post.get("dirty", [])  # pylint: disable=protected-access
                     got_l = w.project_live()
                 except Divergence as dv:
                     bad(dv.sig, dv.msg, dv.prop)
